@@ -4,6 +4,8 @@ package main
 // invariants (or complete unrolling with an unwinding assertion), modular calls.
 
 import (
+	"os"
+	"runtime/debug"
 	"fmt"
 	"math/big"
 	"go/constant"
@@ -289,6 +291,9 @@ func (vc *VC) newFuncCtx(fn *ssa.Function, params, freevars []Val) *FuncCtx {
 func (vc *VC) assume(st *State, f *Term) {
 	if f.IsConst && f.B {
 		return
+	}
+	if f.IsConst && !f.B && os.Getenv("VERIF_DEBUG_FALSE") != "" {
+		debug.PrintStack()
 	}
 	if vc.dry > 0 {
 		return
@@ -877,6 +882,18 @@ func (vc *VC) isFreshRef(t *Term) bool {
 		return true
 	}
 	return t.Op == "+" && len(t.Args) == 2 && t.Args[0] == vc.allocBase && t.Args[1].IsConst && t.Args[1].Int.Sign() >= 0
+}
+
+// isOwnAlloc: t is syntactically an object allocated by the function under verification (relative to any of its
+// allocation bases: the initial one, those after loop cuts and after calls).
+func (vc *VC) isOwnAlloc(t *Term) bool {
+	if t == nil {
+		return false
+	}
+	if vc.allocBases[t] {
+		return true
+	}
+	return t.Op == "+" && len(t.Args) == 2 && vc.allocBases[t.Args[0]] && t.Args[1].IsConst && t.Args[1].Int.Sign() >= 0
 }
 
 func (vc *VC) loopWrites(fx *FuncCtx, L *Loop, st *State, fr *Frame) (cells []int, keys []string, freshOnly map[string]bool) {
